@@ -1087,7 +1087,13 @@ impl Transaction {
                 return false;
             }
 
-            return true;
+            // a staking transaction that moves no value needs nothing further (this is what
+            // the wallet creates while no stake is required). anything else moves value like
+            // any user-originated transaction and goes on to the signature, balance and
+            // input checks below
+            if self.from.is_empty() && self.to.iter().all(|slip| slip.amount == 0) {
+                return true;
+            }
         }
 
         //
